@@ -185,7 +185,7 @@ def render_child_module(fc, g, fallible, draws):
         r.shuffle(at)
         it.fields.append(Field(f["sname"], f["ty"], at))
     if fc.s_ghost:
-        it.fields.insert(r.randint(0, len(it.fields)), Field(fc.s_ghost["sname"], fc.s_ghost["ty"], [Instr("ghost", "ghost", container=None, action=const_of(fc.s_ghost["ty"], fc.s_ghost["k"]), braced=True)]))
+        it.fields.insert(fc.cid % (len(it.fields) + 1), Field(fc.s_ghost["sname"], fc.s_ghost["ty"], [Instr("ghost", "ghost", container=None, action=const_of(fc.s_ghost["ty"], fc.s_ghost["k"]), braced=True)]))
     derive_src = it.render(derive="#[derive(Clone, Debug, PartialEq, o2o::o2o)]")
     L = ["use super::*;", "use o2o::traits::*;", type_defs(fc.root), derive_src, ""]
     by_leaf = {id(f["leaf"]): f for f in fc.fields}
@@ -206,7 +206,7 @@ def render_child_module(fc, g, fallible, draws):
         return f"s.{by_leaf[id(l)]['sname']}"
     L.append(f"fn ref_into(s: &S, pre: &T) -> {'Result<T, super::Er>' if fallible else 'T'} {{ {wrap(tree_value(fc.root, into_leaf))} }}")
     tag = f"c{fc.cid}{'f' if fallible else 'i'}"
-    D = ["pub fn run(log: &mut crate::rt::Log) {", f"    let mut r = crate::rt::Rng::new({fc.cid * 2 + (1 if fallible else 0) + 7000});", f"    for d in 0..{draws}usize {{"]
+    D = ["pub fn run(log: &mut crate::rt::Log) {", f"    let mut r = crate::rt::Rng::new({fc.cid + 7000});", f"    for d in 0..{draws}usize {{"]
     D.append("        let t: T = " + tree_value(fc.root, lambda p, l: rng_call(l["ty"])) + ";")
     D.append("        let pre: T = " + tree_value(fc.root, lambda p, l: rng_call(l["ty"])) + ";")
     D.append("        let s: S = S { " + " ".join(f"{fld.name}: {rng_call(fld.ty)}," for fld in it.fields) + " };")
@@ -299,7 +299,8 @@ def render_parent_module(fc, g, fallible, draws):
     flds = [Field(o["name"], o["ty"]) for o in fc.own]
     for pname, tree in fc.parents:
         flds.append(Field(pname, tree.ty, [Instr("parent", "parent", container=None, fields=parent_args(g, tree, True))]))
-    r.shuffle(flds)
+    import random as _random
+    _random.Random(fc.cid).shuffle(flds)   # same member order in the infallible and the fallible twin (C07 compares them on equal inputs)
     it.fields = flds
     derive_src = it.render(derive="#[derive(Clone, Debug, PartialEq, o2o::o2o)]")
     L = ["use super::*;", "use o2o::traits::*;"]
@@ -326,7 +327,7 @@ def render_parent_module(fc, g, fallible, draws):
     tbody = "T { " + " ".join(t["name"] + ": " + tv[t["name"]] + "," for t in fc.tfields) + " }"
     L.append(f"fn ref_into(s: &S, pre: &T) -> {'Result<T, super::Er>' if fallible else 'T'} {{ {wrap(tbody)} }}")
     tag = f"c{fc.cid}{'f' if fallible else 'i'}"
-    D = ["pub fn run(log: &mut crate::rt::Log) {", f"    let mut r = crate::rt::Rng::new({fc.cid * 2 + (1 if fallible else 0) + 8000});", f"    for d in 0..{draws}usize {{"]
+    D = ["pub fn run(log: &mut crate::rt::Log) {", f"    let mut r = crate::rt::Rng::new({fc.cid + 8000});", f"    for d in 0..{draws}usize {{"]
     D.append("        let t: T = T { " + " ".join(f"{t['name']}: {rng_call(t['ty'])}," for t in fc.tfields) + " };")
     D.append("        let pre: T = T { " + " ".join(f"{t['name']}: {rng_call(t['ty'])}," for t in fc.tfields) + " };")
     sv = []
@@ -388,7 +389,8 @@ def render_bare_module(fc, g, fallible, draws):
     for nm in names:
         it.attrs.append(Instr(f(nm), "trait", ty="T", hint=None, err=err, params=[]))
     flds = [Field(o["name"], o["ty"]) for o in fc.own] + [Field(b["fname"], b["ty"], [Instr("parent", "parent", container=None, fields=None)]) for b in fc.inners]
-    r.shuffle(flds)
+    import random as _random
+    _random.Random(fc.cid).shuffle(flds)
     it.fields = flds
     derive_src = it.render(derive="#[derive(Clone, Debug, PartialEq, o2o::o2o)]")
     L += [derive_src, ""]
@@ -411,7 +413,7 @@ def render_bare_module(fc, g, fallible, draws):
     L.append(f"fn ref_into(s: &S, pre: &T) -> {'Result<T, super::Er>' if fallible else 'T'} {{ {wrap(tvals(False))} }}")
     L.append(f"fn ref_existing(s: &S, pre: &T) -> {'Result<T, super::Er>' if fallible else 'T'} {{ {wrap(tvals(True))} }}")
     tag = f"c{fc.cid}{'f' if fallible else 'i'}"
-    D = ["pub fn run(log: &mut crate::rt::Log) {", f"    let mut r = crate::rt::Rng::new({fc.cid * 2 + (1 if fallible else 0) + 8500});", f"    for d in 0..{draws}usize {{"]
+    D = ["pub fn run(log: &mut crate::rt::Log) {", f"    let mut r = crate::rt::Rng::new({fc.cid + 8500});", f"    for d in 0..{draws}usize {{"]
     D.append("        let t: T = T { " + " ".join(f"{t['name']}: {rng_call(t['ty'])}," for t in tfields) + " };")
     D.append("        let pre: T = T { " + " ".join(f"{t['name']}: {rng_call(t['ty'])}," for t in tfields) + " };")
     svv = []
